@@ -429,6 +429,9 @@ func (p *qemuProvisioner) updateCapabilityTEE(ctx context.Context, hp *sandbox.H
 	if err != nil {
 		return nil, fmt.Errorf("error while requesting worker quote and public RAK: %w", err)
 	}
+	if rspRep.RuntimeCapabilityTEERakReportResponse == nil {
+		return nil, fmt.Errorf("error while requesting worker quote and public RAK: malformed runtime response")
+	}
 	rakPub := rspRep.RuntimeCapabilityTEERakReportResponse.RakPub
 	rekPub := rspRep.RuntimeCapabilityTEERakReportResponse.RekPub
 	rawQuote := rspRep.RuntimeCapabilityTEERakReportResponse.Report
